@@ -38,6 +38,10 @@ for _f in ('Scope.__init__', 'Scope.finalize', 'Scope.referenced', 'Scope.enclos
            'ActivityAnalyzer._track_symbol', 'ActivityAnalyzer._enter_scope', 'ActivityAnalyzer._exit_scope'):
   SCRIPTS['malt.pyct.static_analysis.activity.' + _f] = ('bounded/rt_scope.py', ['0', 'quick'])
 
+for _f in ('GraphBuilder._connect_nodes#node', 'GraphBuilder._connect_nodes#set', 'GraphBuilder._add_new_node',
+           'GraphBuilder.add_ordinary_node', 'GraphBuilder._add_jump_node', 'Node.freeze'):
+  SCRIPTS['malt.pyct.cfg.' + _f] = ('bounded/c05_paths.py', ['1', 'quick'])
+
 _cache = {}
 
 
